@@ -9,9 +9,16 @@ once whatever the dependencies (cycles, self-references), and when the dependenc
 acyclic apart from self-loops every declaration comes after everything it mentions.
 -/
 import GooseVerif.Lemmas.Deps
+import GooseVerif.Gen.PrinterFacts
+import GooseVerif.Expected.PrinterFacts
 
 namespace GooseVerif.Props.C04
 open GooseVerif.Model.Deps
+
+/-- T-gen obligation: `Ctx.Decls` (recording of names and dependencies, last-writer name table,
+depth-first emission with the generated set marked before recursion), `sortedFiles` and the
+dependency tracker are, up to formatting, what Model/Deps.lean was written from. -/
+theorem emission_facts_ok : GooseVerif.Gen.Printer.emission = GooseVerif.Expected.Printer.emission := rfl
 
 /-- Every declaration is emitted exactly once, whatever the dependencies (including cycles and
 self-dependencies): the emission order is a permutation of `0 .. n-1`. -/
